@@ -330,10 +330,13 @@ func (w *World) UpdateSub(s *Sub, what string, r *rand.Rand) {
 		nc.MinB = []time.Duration{0, 200 * time.Millisecond, 2 * time.Second, 15 * time.Second}[r.Intn(4)]
 		nc.MaxB = []time.Duration{0, 3 * time.Second, 40 * time.Second, 20 * time.Minute}[r.Intn(4)]
 		req.Subscription.RetryPolicy = &pubsubpb.RetryPolicy{}
-		if nc.MinB > 0 {
+		// a bound of zero is sent either as an absent field or as an explicit 0s:
+		// both mean "the default"
+		explicitZero := r.Intn(2) == 0
+		if nc.MinB > 0 || explicitZero {
 			req.Subscription.RetryPolicy.MinimumBackoff = durationpb.New(nc.MinB)
 		}
-		if nc.MaxB > 0 {
+		if nc.MaxB > 0 || explicitZero {
 			req.Subscription.RetryPolicy.MaximumBackoff = durationpb.New(nc.MaxB)
 		}
 	case "expiration_policy":
